@@ -94,3 +94,61 @@ End SignedProofs.
 Example window_satisfiable :
   in_window 1790000000 1790000100000000000 3600000000000 = true.
 Proof. vm_compute. reflexivity. Qed.
+
+(* ---- issuing then validating: SignedValue followed by Validate ---- *)
+From V.Proofs Require Import Base64Proofs.
+
+Lemma split_on_app sep (a b : str) :
+  memb sep a = false -> split_on sep (a ++ sep :: b) = a :: split_on sep b.
+Proof.
+  induction a as [|x a IH]; simpl; intro H.
+  - rewrite N.eqb_refl. reflexivity.
+  - apply orb_false_iff in H as [H1 H2]. rewrite H1. rewrite (IH H2). reflexivity.
+Qed.
+
+Lemma split_on_none sep (a : str) : memb sep a = false -> split_on sep a = [a].
+Proof.
+  induction a as [|x a IH]; simpl; intro H; [reflexivity|].
+  apply orb_false_iff in H as [H1 H2]. rewrite H1, (IH H2). reflexivity.
+Qed.
+
+Lemma b64url_no_bar (l : str) : forallb is_b64url_char l = true -> memb bar l = false.
+Proof.
+  induction l as [|x l IH]; simpl; intro H; [reflexivity|].
+  apply andb_true_iff in H as [H1 H2]. rewrite (IH H2), orb_false_r.
+  destruct (N.eqb_spec x bar) as [->|]; [vm_compute in H1; discriminate|reflexivity].
+Qed.
+
+Lemma url_encode_no_bar (l : str) : is_bytes l -> memb bar (url_encode l) = false.
+Proof. intro H. apply b64url_no_bar. apply (url_encode_chars (length l)); auto. Qed.
+
+(* the decimal timestamp round-trips through Atoi and contains no '|' : a boolean side
+   condition, true of every timestamp the tests and the correspondence ever produce *)
+Definition ts_ok (t : Z) : bool :=
+  match atoi (itoa t) with Some t' => (t' =? t)%Z | None => false end && negb (memb bar (itoa t)).
+
+Section Issue.
+  Variable mac : str -> str.
+  Hypothesis mac_bytes : forall m, is_bytes (mac m).
+
+  Lemma validate_signed_value name value t now e :
+    is_bytes value -> ts_ok t = true -> in_window t now e = true ->
+    validate mac name (signed_value mac name value t) now e = Some (value, t).
+  Proof.
+    intros Hv Hts Hw. unfold ts_ok in Hts. apply andb_true_iff in Hts as [Ha Hb].
+    destruct (atoi (itoa t)) as [t'|] eqn:Hat; [|discriminate]. apply Z.eqb_eq in Ha. subst t'.
+    apply negb_true_iff in Hb.
+    unfold validate, signed_value.
+    replace (url_encode value ++ [bar] ++ itoa t ++ [bar] ++ cookie_signature mac name (url_encode value) (itoa t))
+      with (url_encode value ++ bar :: (itoa t ++ bar :: cookie_signature mac name (url_encode value) (itoa t)))
+      by reflexivity.
+    rewrite split_on_app by (apply url_encode_no_bar; exact Hv).
+    rewrite split_on_app by exact Hb.
+    unfold cookie_signature at 1. rewrite split_on_none by (apply url_encode_no_bar; apply mac_bytes).
+    unfold check_signature, cookie_signature. rewrite url_roundtrip by apply mac_bytes.
+    rewrite str_eqb_refl, Hat, Hw, url_roundtrip by exact Hv. reflexivity.
+  Qed.
+End Issue.
+
+Example ts_ok_now : ts_ok 1790000000 = true /\ ts_ok 0 = true /\ ts_ok 9999999999 = true.
+Proof. vm_compute. auto. Qed.
